@@ -94,6 +94,49 @@ SUMMARY.update({
  'C20-D': ('C20', 'end of the fallback reserve computed from the ABI wrapper\'s address', 'mmap refused and the reserve used up: regions handed out past the real end'),
 })
 
+SUMMARY.update({
+ 'C01-E': ('C01', 'DefMocker.Apply returns early when the new callback has the type and CODE pointer of the installed one', 'Apply(cb1) then Apply(cb2) on one mock, cb1 and cb2 two values of one function literal (different captures)'),
+ 'C01-F': ('C01', 'memory.WriteTo opens the page READ|WRITE without EXEC while it writes', 'a goroutine calling a mocked function on the page while another mock on that page is installed or removed'),
+ 'C02-E': ('C02', 'baseMocker.applyBy* drop the held guard before asking the patch layer', 'a successful mock, then a rejected Apply (wrong signature) on the same target, then Reset/Cancel: the live jump is never removed'),
+ 'C02-F': ('C02', 'CachedMethodMocker.Cancel returns at the first already-cancelled method mocker (return for continue)', 'two methods of one struct mocked through one builder, one cancelled individually, then Reset'),
+ 'C03-E': ('C03', 'isByteOverflow tests against the unsigned byte range', 'placeholder 100..250 bytes in front of the function and a rel8 branch in the first 13 bytes that leaves the block: kept short, goes backwards'),
+ 'C03-F': ('C03', 'replaceFunc reuses the trampoline of an earlier patch of the same origin into the same placeholder', 'one placeholder serving f, then g, then f again (one mock at a time)'),
+ 'C04-E': ('C04', 'InExpr.Resolve shares the expansion buffer between alternatives', 'variadic target, In with two or more typed-slice alternatives, call matching a non-first alternative'),
+ 'C04-F': ('C04', 'EqualsExpr memoises its last answer by reflect.Value identity', 'two calls passing the same pointer/map with changed contents'),
+ 'C05-E': ('C05', 'debug interceptor shares one results variable between invocations', 'debug logging on and overlapping callers of an unexhausted sequence'),
+ 'C05-F': ('C05', 'baseMocker.callback copies the results into a per-mocker buffer', 'two goroutines inside one multi-result stub at once: tuples mixed from two steps'),
+ 'C06-E': ('C06', 'CachedMethodMocker.ExportMethod hands every method name the container\'s own base mocker', 'two unexported methods of one struct stubbed through one Struct(x)'),
+ 'C06-F': ('C06', 'symbol names compared after strings.TrimRight(x, ".abi0") (cutset, not suffix)', 'by-name mock of a method/function with a sibling whose name differs only by trailing characters out of ".abi0" (get/get0/geta)'),
+ 'C07-E': ('C07', 'debug wrapper forwards variadic replacements with Call instead of CallSlice', 'debug logging on, variadic interface method, Apply'),
+ 'C07-F': ('C07', 'finalizer on the per-variable interface mocker cancels the mock', 'builder dropped while the variable is still used, then a garbage collection'),
+ 'C08-E': ('C08', 'unExportedVarMocker loses its own String(); the embedded one dereferences the not-yet-created target', 'by-name variable mock never Set/Applied, then Builder.Reset'),
+ 'C08-F': ('C08', 'ELF symbol loader keeps only .data/.noptrdata/.bss symbols', 'by-name mock of a pointer-free variable that starts as the zero value (.noptrbss)'),
+ 'C09-E': ('C09', 'outTypes() cached by the printed function type', 'two functions whose types print identically (same-named types of same-named packages), stubbed one after the other'),
+ 'C09-F': ('C09', 'EqualsExpr fast path treats every empty slice/map as equal to every other', 'When(nil) on a slice/map parameter called with an empty non-nil value, or When([]T{}) called with nil'),
+ 'C10-E': ('C10', 'UnexportedMethodMocker memoises its symbol name; Method(name) does not clear it', 'one mocker object from the exported constructor pointed at a second method'),
+ 'C10-F': ('C10', 'UnexportedMethodMocker.Apply falls back from pkg.T.m to pkg.(*T).m', 'value-receiver spelling of a method that only exists with a pointer receiver: another symbol is patched'),
+ 'C11-E': ('C11', 'CreateFuncForCodePtr caches its MakeFunc value by function type', 'two live mocks with origin placeholders of the same function type: the earlier placeholder now runs the later original'),
+ 'C11-F': ('C11', 'InExpr.Eval reuses one argument window per expression object', 'steady mock with In(...) and two callers inside at once with arguments of different verdicts'),
+ 'C12-E': ('C12', 'interface When/Return dispatcher reused when the As function type is the same', 'two methods of one interface variable with identical signatures, both stubbed'),
+ 'C12-F': ('C12', 'MethodMocker.Apply no longer detaches the earlier When', 'Return, then Apply, then Return again on one struct method'),
+ 'C13-E': ('C13', 'function symbol lookup falls back to the first symbol the name is a prefix of', 'unknown name that is a proper prefix of an existing symbol'),
+ 'C13-F': ('C13', 'newDefaultMatch truncates the fixed parameter types to the number of supplied condition arguments', 'variadic target with two or more fixed parameters, too few condition arguments in a When that is not the first configuration call'),
+ 'C14-E': ('C14', 'the saved original bytes are 20 long, so removal rewrites 20 bytes', 'a neighbour less than 20 bytes behind the target whose bytes changed between install and removal (it was mocked meanwhile)'),
+ 'C14-F': ('C14', 'GetFuncSize reports decoder errors; the caller then assumes 1024 bytes', 'too-short function followed directly by bytes the bundled decoder rejects (EVEX, 64-bit-invalid opcode)'),
+ 'C15-E': ('C15', 'replaceFunc keeps the installed sequence when the new replacement has the same CODE address', 'diverting again, without restoring, to another function value that shares its code (closure of the same literal, method value, MakeFunc)'),
+ 'C15-F': ('C15', 'trampoline builder asks for 12 moved bytes instead of 13', 'function with an instruction boundary at byte 12: the return jump lands inside the overwritten bytes'),
+ 'C16-E': ('C16', 'REX.B folded into r/m before the SIB test', 'SIB-form memory operand with REX.B (R12 base, base in R8-R15): length one byte short'),
+ 'C16-F': ('C16', 'REX without W resets the operand size to 32', '0x66 together with a REX prefix and a 16-bit immediate: length two bytes long'),
+ 'C17-E': ('C17', 'Inst.String counts operands by scanning for the nil terminator without a bound', 'the only five-operand instruction (SYSL): index out of range when printed'),
+ 'C17-F': ('C17', 'table scan resumes at the row that matched last time', 'alias word decoded after a word of the general form: general opcode reported'),
+ 'C18-E': ('C18', 'toValue treats a typed nil like the untyped nil', 'interface-typed parameter and a typed-nil expectation'),
+ 'C18-F': ('C18', 'EqualsExpr memoises its last answer by reflect.Value identity', 'the same storage evaluated twice with changed contents'),
+ 'C19-E': ('C19', 'debug line renders defaultReturns.Result(), which advances the cursor', 'logging on, a condition registered, a call matching none, default is a sequence'),
+ 'C19-F': ('C19', 'trace dump title dereferences runtime.FuncForPC(addr) without a nil check', 'trace logging and an interface mock (stub address outside the Go text)'),
+ 'C20-E': ('C20', 'extent scanner no longer stops at a single int3', 'mmap refused and the reserve used to its end: the reserve end lies past the placeholder'),
+ 'C20-F': ('C20', 'mProtectCrossPage makes one mprotect call from the page start with the unrounded length', 'a region of the fallback reserve that straddles a page boundary is written'),
+})
+
 for sid, (prop, change, needs) in sorted(SUMMARY.items()):
     d = os.path.join(HERE, 'seeded', sid)
     tj = os.path.join(d, 'triage.json')
